@@ -72,7 +72,7 @@ func tables() []tableInfo {
 }
 
 // Foreign operation kinds applied to one touched row.
-var foreignKinds = []string{"third", "back", "unwritten", "delete", "reinsert-same", "reinsert-diff", "lookalike"}
+var foreignKinds = []string{"third", "back", "unwritten", "delete", "reinsert-same", "reinsert-diff", "lookalike", "null"}
 
 type fop struct {
 	Kind string `json:"kind"`
@@ -239,6 +239,18 @@ func evalCase(r *rep.Run, e *sys.Env, c Case, idx int) {
 					return
 				}
 				q, args = "UPDATE "+s.Table+" SET name = ? WHERE "+where, append([]interface{}{alike}, wargs...)
+			case "null":
+				// the foreign writer sets a column the branch wrote to NULL (only where the column allows it)
+				col := ti.written
+				if len(b.Written) > 0 {
+					col = b.Written[0]
+				}
+				ci := t.ColIndexPublic(col)
+				if cur == nil || ci < 0 || !t.Cols[ci].Nullable || cur[ci] == nil {
+					applicable = false
+					return
+				}
+				q, args = "UPDATE "+s.Table+" SET "+col+" = NULL WHERE "+where, wargs
 			case "back":
 				if cur == nil || before == nil || after == nil {
 					applicable = false
@@ -423,7 +435,7 @@ func allCols(t *memdb.Table) []int {
 func Run(r *rep.Run) {
 	thorough := r.Tier == "thorough"
 	r.Rule = "committed branches {update, delete, insert, upsert-insert, upsert-update} x {1 row, 3 rows} over s1 (single key), s3 (composite key), s5 (nullable/unique) x only-care-update-columns {on, off}, data validation on; " +
-		"foreign histories applied through a bare connection between local commit and rollback: none, and every single and ordered pair of {third value on a written column, written column set back to the before value, unwritten column changed, row deleted, deleted key re-inserted with same / different content} on the first two touched rows. " +
+		"foreign histories applied through a bare connection between local commit and rollback: none, and every single and ordered pair of {third value on a written column, written column set back to the before value, unwritten column changed, row deleted, deleted key re-inserted with same / different content, written column set to NULL where it is nullable} on the first two touched rows. " +
 		"Non-trivial = at least one foreign operation was applied."
 	r.Assume = []string{"memdb assumptions A1-A7", "rows are classified on the columns present in the images (updated columns + key with only-care on, all columns otherwise); mixtures of reverted and unreverted rows are left unspecified"}
 	shard, nshards, worker := rep.Shard()
